@@ -242,9 +242,21 @@ pub fn step(ex: &mut Exec, st: &mut L1State, op: &str, toks: &[&str]) -> Option<
                 });
             }
             // --- enumeration ---
+            let t_enum = std::time::Instant::now();
             let Some((fe, fh)) = res else { return Some("violations=0".into()) };
             let roots = st.fx_roots.clone();
-            let users = fx.users.clone();
+            // the probe after every fault serves every label; on a large directory a sample: the labels of this batch, the
+            // first and the last dozen
+            let users: Vec<AkdLabel> = if fx.users.len() > 40 {
+                let mut v: Vec<AkdLabel> = ups.iter().map(|(u, _)| u.clone()).take(12).collect();
+                v.extend(fx.users.iter().take(12).cloned());
+                v.extend(fx.users.iter().rev().take(12).cloned());
+                v.sort();
+                v.dedup();
+                v
+            } else {
+                fx.users.clone()
+            };
             let snapshot = fx.records.clone();
             let mut violations = 0usize;
             let mut report = |ex: &mut Exec, k: u64, tag: &str, what: String| {
@@ -264,7 +276,10 @@ pub fn step(ex: &mut Exec, st: &mut L1State, op: &str, toks: &[&str]) -> Option<
             // with parallel insertion every fault index is tried twice: as fast as the in-memory database goes, and with a read
             // latency of 200 us, which keeps the sub-tasks of the insertion at work while a sibling fails
             let delays: &[u64] = if par.insertion == akd::append_only_zks::AzksParallelismOption::Disabled { &[0] } else { &[0, 200] };
-            for (k, delay) in (0..k_total).flat_map(|k| delays.iter().map(move |d| (k, *d))) {
+            // a very long call (the large publish without cache): in the quick tier every fourth read index, plus the first and
+            // the last forty operations (the commit write is the last one)
+            let sample = k_total > 400 && !st.thorough;
+            for (k, delay) in (0..k_total).filter(|k| !sample || k % 4 == 0 || *k < 40 || *k + 40 >= k_total).flat_map(|k| delays.iter().map(move |d| (k, *d))) {
                 let outcome = with_cfg!(cfg.as_str(), TC => {
                     let db = rt.block_on(FaultDb::from_records(&snapshot));
                     db.read_delay_us.store(delay, Ordering::SeqCst);
@@ -330,6 +345,9 @@ pub fn step(ex: &mut Exec, st: &mut L1State, op: &str, toks: &[&str]) -> Option<
             }
             ex.stats.bump(op, &format!("K{}", (k_total / 10) * 10));
             let _ = sorted;
+            if std::env::var("VERIF_TIMING").is_ok() {
+                eprintln!("fx.enum cfg={} cache={} par={:?} labels={} k_total={} took {:?}", cfg, cache, par.insertion, ups.len(), k_total, t_enum.elapsed());
+            }
             Some(format!("violations={violations}"))
         }
         "pc.enum" => {
